@@ -32,6 +32,8 @@ pub struct MockCtl {
     pub q_hang: AtomicBool,
     /// hang only when the query is the pooler's health check `;`
     pub hc_hang: AtomicBool,
+    /// hang only on statements that carry a client tag (pooler-originated round trips are answered)
+    pub tag_hang: AtomicBool,
     /// answer the health check `;` with an error + close
     pub hc_fail: AtomicBool,
     /// what to do in the middle of a client-tagged reply that is at least `mid_after` bytes long
@@ -74,6 +76,7 @@ impl MockCtl {
             listen: AtomicU8::new(LISTEN_UP),
             q_hang: AtomicBool::new(false),
             hc_hang: AtomicBool::new(false),
+            tag_hang: AtomicBool::new(false),
             hc_fail: AtomicBool::new(false),
             mid_mode: AtomicU8::new(MID_NONE),
             mid_after: AtomicU64::new(0),
@@ -100,6 +103,7 @@ impl MockCtl {
         self.listen.store(LISTEN_UP, Ordering::SeqCst);
         self.q_hang.store(false, Ordering::SeqCst);
         self.hc_hang.store(false, Ordering::SeqCst);
+        self.tag_hang.store(false, Ordering::SeqCst);
         self.hc_fail.store(false, Ordering::SeqCst);
         self.mid_mode.store(MID_NONE, Ordering::SeqCst);
         self.mid_once.store(false, Ordering::SeqCst);
@@ -984,6 +988,11 @@ impl Session {
         // --- faults that apply before processing
         if self.ctl.q_hang.load(Ordering::SeqCst) && m.typ != b'X' {
             if !self.wait_while(|c| c.q_hang.load(Ordering::SeqCst)) {
+                return Flow::Close("killed-while-hung".into());
+            }
+        }
+        if m.typ == b'Q' && own_text.as_deref().map(|t| t.contains("/*v ")).unwrap_or(false) && self.ctl.tag_hang.load(Ordering::SeqCst) {
+            if !self.wait_while(|c| c.tag_hang.load(Ordering::SeqCst)) {
                 return Flow::Close("killed-while-hung".into());
             }
         }
